@@ -868,51 +868,51 @@ end MxNoLease
 /-! ### ===== END mux6 ===== -/
 
 /-! ### ===== pool10: events inside the dial / init / NewStream accounting windows ===== -/
-namespace DialWin
+section DialWin
 open MosnVerif.Model.PoolDialWin MosnVerif.Gen.PoolDial MosnVerif.Gen.Pool
 
-def dT : Nat → Int | 30 => 1 | 31 => -1 | _ => 0
-def dH : Nat → Int | 22 => 1 | 20 => -1 | _ => 0
-def dC : Nat → Int | 23 => 1 | 21 => -1 | _ => 0
+def dwT : Nat → Int | 30 => 1 | 31 => -1 | _ => 0
+def dwH : Nat → Int | 22 => 1 | 20 => -1 | _ => 0
+def dwC : Nat → Int | 23 => 1 | 21 => -1 | _ => 0
 
-theorem move_additive (mr : Int) (b : Books) (c : Nat) (h : c ≠ 32) :
-    (move mr b c).total = b.total + dT c ∧ (move mr b c).cnH = b.cnH + dH c ∧ (move mr b c).cnC = b.cnC + dC c := by
+theorem dw_move_additive (mr : Int) (b : Books) (c : Nat) (h : c ≠ 32) :
+    (move mr b c).total = b.total + dwT c ∧ (move mr b c).cnH = b.cnH + dwH c ∧ (move mr b c).cnC = b.cnC + dwC c := by
   unfold move
   split
   all_goals first
     | exact absurd rfl h
-    | (simp [dT, dH, dC]; done)
-    | (simp [dT, dH, dC]; omega)
-    | (unfold dT dH dC; split <;> split <;> split <;> simp_all)
+    | (simp [dwT, dwH, dwC]; done)
+    | (simp [dwT, dwH, dwC]; omega)
+    | (unfold dwT dwH dwC; split <;> split <;> split <;> simp_all)
 
-theorem run_additive (mr : Int) (l : List Nat) (h : ∀ c ∈ l, c ≠ 32) (b : Books) :
-    (MosnVerif.Model.PoolDialWin.run mr b l).total = b.total + (l.map dT).sum ∧ (MosnVerif.Model.PoolDialWin.run mr b l).cnH = b.cnH + (l.map dH).sum ∧
-    (MosnVerif.Model.PoolDialWin.run mr b l).cnC = b.cnC + (l.map dC).sum := by
+theorem dw_run_additive (mr : Int) (l : List Nat) (h : ∀ c ∈ l, c ≠ 32) (b : Books) :
+    (MosnVerif.Model.PoolDialWin.run mr b l).total = b.total + (l.map dwT).sum ∧ (MosnVerif.Model.PoolDialWin.run mr b l).cnH = b.cnH + (l.map dwH).sum ∧
+    (MosnVerif.Model.PoolDialWin.run mr b l).cnC = b.cnC + (l.map dwC).sum := by
   induction l generalizing b with
   | nil => simp [MosnVerif.Model.PoolDialWin.run]
   | cons c l ih =>
-    have hm := move_additive mr b c (h c (by simp))
+    have hm := dw_move_additive mr b c (h c (by simp))
     have := ih (fun x hx => h x (by simp [hx])) (move mr b c)
     simp only [MosnVerif.Model.PoolDialWin.run, List.foldl_cons, List.map_cons, List.sum_cons] at this ⊢
     omega
 
 /-- the class of window programs the theorem is proved for: no guarded decrement, the dial counts +1 on the counter and
 both gauges, the close handler -1 -/
-def dialOk (dial close : List Nat) : Bool :=
+def dwDialOk (dial close : List Nat) : Bool :=
   dial.all (· != 32) && close.all (· != 32) &&
-  (dial.map dT).sum == 1 && (dial.map dH).sum == 1 && (dial.map dC).sum == 1 &&
-  (close.map dT).sum == -1 && (close.map dH).sum == -1 && (close.map dC).sum == -1
+  (dial.map dwT).sum == 1 && (dial.map dwH).sum == 1 && (dial.map dwC).sum == 1 &&
+  (close.map dwT).sum == -1 && (close.map dwH).sum == -1 && (close.map dwC).sum == -1
 
-theorem dialOk_regenerated : dialOk ppDialProg ppCloseProg = true := by decide
+theorem dialOk_regenerated : dwDialOk ppDialProg ppCloseProg = true := by decide
 
 /-- W1. Whatever the position `p` of the close handler inside the dial window (before the gauges, between them, before
 or after the counter's increment), the counter and both connection gauges end where they started: the connection that
 was closed before it was counted is not counted, nothing stays behind. (Every program of the class; the regenerated
 pair is in it.) -/
-theorem pp_dial_window_books_any (dial close : List Nat) (h : dialOk dial close = true) (mr : Int) (b : Books) (p : Nat) :
+theorem pp_dial_window_books_any (dial close : List Nat) (h : dwDialOk dial close = true) (mr : Int) (b : Books) (p : Nat) :
     (dialClosedAtWith dial close mr b p).total = b.total ∧ (dialClosedAtWith dial close mr b p).cnH = b.cnH ∧
     (dialClosedAtWith dial close mr b p).cnC = b.cnC := by
-  simp only [dialOk, Bool.and_eq_true, List.all_eq_true, bne_iff_ne, ne_eq, beq_iff_eq] at h
+  simp only [dwDialOk, Bool.and_eq_true, List.all_eq_true, bne_iff_ne, ne_eq, beq_iff_eq] at h
   obtain ⟨⟨⟨⟨⟨⟨⟨hd, hc⟩, d1⟩, d2⟩, d3⟩, c1⟩, c2⟩, c3⟩ := h
   have hall : ∀ c ∈ dial.take p ++ close ++ dial.drop p, c ≠ 32 := by
     intro c hc'
@@ -921,7 +921,7 @@ theorem pp_dial_window_books_any (dial close : List Nat) (h : dialOk dial close 
     · exact hd c (List.mem_of_mem_take h1)
     · exact hc c h1
     · exact hd c (List.mem_of_mem_drop h1)
-  have hr := run_additive mr _ hall b
+  have hr := dw_run_additive mr _ hall b
   have e : ∀ f : Nat → Int, ((dial.take p ++ close ++ dial.drop p).map f).sum = (dial.map f).sum + (close.map f).sum := by
     intro f
     have : (dial.map f).sum = ((dial.take p).map f).sum + ((dial.drop p).map f).sum := by
@@ -938,9 +938,9 @@ theorem pp_dial_window_books (mr : Int) (b : Books) (p : Nat) :
 /-- without a close the dial counts the connection once -/
 theorem pp_dial_counts_once (mr : Int) (b : Books) :
     (MosnVerif.Model.PoolDialWin.run mr b ppDialProg).total = b.total + 1 ∧ (MosnVerif.Model.PoolDialWin.run mr b ppDialProg).cnH = b.cnH + 1 := by
-  have := run_additive mr ppDialProg (by decide) b
-  have h1 : (ppDialProg.map dT).sum = 1 := by decide
-  have h2 : (ppDialProg.map dH).sum = 1 := by decide
+  have := dw_run_additive mr ppDialProg (by decide) b
+  have h1 : (ppDialProg.map dwT).sum = 1 := by decide
+  have h2 : (ppDialProg.map dwH).sum = 1 := by decide
   omega
 
 -- non-vacuous: the counter passes through -1 inside the window
@@ -970,7 +970,7 @@ example : mxAfterInitWith true true true false .goAway = some false := by decide
 the ledger of an idle pool and of a pool with one request in flight, every close position of the regenerated tail of
 NewStream, connection open or closed on entry): a refusal gives back exactly what was taken and the Requests resource
 ends non-negative. -/
-def nsLedgerOk (mr : Int) (b : Books) (closed : Bool) (ev : Option Nat) : Bool :=
+def dwNsLedgerOk (mr : Int) (b : Books) (closed : Bool) (ev : Option Nat) : Bool :=
   let r := nsRun mr { b := b, connClosed := closed } ev
   decide (r.b.q ≥ 0) && (if r.refused then r.b.q == b.q && r.b.rqH == b.rqH && r.b.rqC == b.rqC
                          else r.b.rqH == b.rqH + 1 && r.b.rqC == b.rqC + 1)
@@ -978,7 +978,7 @@ def nsLedgerOk (mr : Int) (b : Books) (closed : Bool) (ev : Option Nat) : Bool :
 theorem pp_newstream_refusal_ledger_partial :
     ∀ mr ∈ [(0 : Int), 1, 2], ∀ b ∈ [({} : Books), { q := 1, rqH := 1, rqC := 1 }], ∀ closed ∈ [true, false],
       ∀ ev ∈ [none, some 0, some 1, some 2, some 3, some 4, some 5],
-        (decide (mr = 0) && decide (b.q ≠ 0)) || nsLedgerOk mr b closed ev = true := by decide
+        (decide (mr = 0) && decide (b.q ≠ 0)) || dwNsLedgerOk mr b closed ev = true := by decide
 
 -- negation witness: the closed test moved in front of the accounting gives back what was never taken
 example : (nsRunWith [50, 42, 51, 10, 11, 12, 43] ppCloseProg 1 { b := {}, connClosed := true } none).b.q = -1 := by decide
